@@ -103,6 +103,13 @@ func Corpus() []*Schema {
 		Dep: &Schema{ID: "importsdep", Syntax: "proto3", Messages: []M{{Name: "D", Fields: []F{{"n", 1, "int32", "opt"}, {"s", 2, "string", "opt"}}}}, Enums: []E{{Name: "Shade", Values: []int32{0, 1, 5}}}},
 		Messages: []M{{Name: "User", Fields: []F{{"id", 1, "int32", "opt"}, {"d", 2, "dep:D", "opt"}, {"ds", 3, "dep:D", "rep"}, {"shade", 4, "depenum:Shade", "opt"}, {"shades", 5, "depenum:Shade", "packed"},
 			{"by", 6, "dep:D", "map:string"}, {"one", 7, "dep:D", "oneof:pick"}, {"other", 8, "depenum:Shade", "oneof:pick"}}}}})
+	// a file that declares no message at all (an enum only)
+	cs = append(cs, &Schema{ID: "enumonly", Syntax: "proto3", Enums: []E{{Name: "Level", Values: []int32{0, 1, 2}}}})
+	// a proto2 extension whose type is a message / an enum of an imported file
+	cs = append(cs, &Schema{ID: "importsext", Syntax: "proto2",
+		Dep:      &Schema{ID: "importsextdep", Syntax: "proto2", Messages: []M{{Name: "D", Fields: []F{{"n", 1, "int32", "opt"}}}}, Enums: []E{{Name: "Shade", Values: []int32{0, 1, 5}}}},
+		Messages: []M{{Name: "Base", Fields: []F{{"id", 1, "int32", "opt"}}, Ranges: [][2]int32{{100, 200}}}},
+		FileExt:  []F{{"ext_d", 100, "dep:D", "ext:Base"}, {"ext_shade", 101, "depenum:Shade", "ext:Base"}}})
 	// foreign messages (well-known types)
 	wkt := &Schema{ID: "wkt", Syntax: "proto3", Imports: []string{"google/protobuf/timestamp.proto", "google/protobuf/duration.proto", "google/protobuf/wrappers.proto"}}
 	wkt.Messages = []M{{Name: "Event", Fields: []F{{"name", 1, "string", "opt"}, {"at", 2, "wkt:google.protobuf.Timestamp", "opt"}, {"took", 3, "wkt:google.protobuf.Duration", "opt"},
